@@ -120,6 +120,7 @@ type vpWorld struct {
 	scopeFrom      map[int]context.Context // scope -> the context it was created from (nil: the provider's own)
 	preFail        int   // constructor that fails during the preliminary Build of a rebuild scenario only (0 = none)
 	preFailed      bool
+	preFailWanted  bool // the scenario asks for a constructor failure in the preliminary Build
 	injErr         []int // constructors that returned an injected error during the current API call
 	injPanic       []int
 	fails          []string
@@ -202,6 +203,18 @@ type vpCloseErr struct{ inst int }
 
 func (e *vpCloseErr) Error() string {
 	return "injected Close failure of instance " + strconv.Itoa(e.inst)
+}
+
+// a Close method may well fail with an error that wraps a context error (a transaction bound to the scope's
+// context, which Close has just cancelled): it is a failed Close like any other
+func (e *vpCloseErr) Unwrap() error {
+	switch e.inst % 3 {
+	case 1:
+		return context.Canceled
+	case 2:
+		return context.DeadlineExceeded
+	}
+	return nil
 }
 
 // ---------------------------------------------------------------- values → protocol text
@@ -937,7 +950,7 @@ func (r *vpRun) register(w *vpWorld) {
 func (r *vpRun) preBuild(w *vpWorld, rng *rand.Rand) {
 	r.stats["prebuild"]++
 	w.preFail, w.preFailed = 0, false
-	if rng.Intn(3) == 0 {
+	if rng.Intn(3) == 0 || w.preFailWanted {
 		var cands []int
 		for _, reg := range w.regs {
 			if reg.added && reg.life == Singleton && reg.withErr && reg.form != "inst" {
@@ -1646,6 +1659,9 @@ func (r *vpRun) getGroup(w *vpWorld, s int, t reflect.Type, group string) {
 		for i := range v {
 			b := v[i].(vpObj).base()
 			outIdx := ks[i]
+			if rs[i].outs[outIdx].alias { // an alias of output 0
+				outIdx = 0
+			}
 			if b.Ctor != rs[i].idx+1 || (b.Out != outIdx && !rs[i].isInst()) {
 				w.fail("C04", "GetGroup(%v,%q) member %d comes from constructor %d, registration order says %d", t, group, i, b.Ctor, rs[i].idx+1)
 			}
@@ -2008,23 +2024,19 @@ func (w *vpWorld) generate(o vpGenOpts) {
 			}
 		case "alias":
 			out, ok := newOut()
-			if !ok || out.group != "" {
-				reg.form = "plain"
-				if !ok {
-					continue
-				}
-				reg.outs = []vpOut{out}
-				break
+			if !ok {
+				continue
 			}
 			reg.outs = []vpOut{out}
 			for _, it := range rng.Perm(len(vpIfaces))[:1+rng.Intn(2)] {
-				if out.name == "" && usedIface[vpIfaces[it]] {
+				if out.name == "" && out.group == "" && usedIface[vpIfaces[it]] {
 					continue
 				}
-				if out.name == "" {
+				if out.name == "" && out.group == "" {
 					usedIface[vpIfaces[it]] = true
 				}
-				reg.outs = append(reg.outs, vpOut{typ: vpIfaces[it], slot: out.slot, name: out.name, alias: true})
+				// (with Group every alias joins the group of its own interface type: the groups may have different sizes)
+				reg.outs = append(reg.outs, vpOut{typ: vpIfaces[it], slot: out.slot, name: out.name, group: out.group, alias: true})
 			}
 			if len(reg.outs) == 1 {
 				reg.form = "plain"
@@ -2187,6 +2199,38 @@ func (w *vpWorld) generate(o vpGenOpts) {
 			if out.group == "" {
 				allGrouped = false
 			}
+		}
+		if reg.form == "alias" && len(reg.outs) >= 2 && reg.outs[0].group != "" && rng.Intn(2) == 0 {
+			// a companion in the same group under a different number of interface types: the (interface, group)
+			// groups then have different sizes, so an alias's position differs from group to group
+			comp := &vpReg{idx: len(w.regs), life: reg.life, form: "alias", useIn: reg.useIn, withErr: reg.withErr,
+				deps: append([]vpDep(nil), reg.deps...)}
+			first := reg.outs[0]
+			comp.outs = []vpOut{first}
+			var ifaces []reflect.Type
+			if len(reg.outs) == 2 { // one alias so far: the companion takes that one and another one
+				ifaces = append(ifaces, reg.outs[1].typ)
+				for _, it := range vpIfaces {
+					if it != reg.outs[1].typ {
+						ifaces = append(ifaces, it)
+						break
+					}
+				}
+				if rng.Intn(2) == 0 {
+					ifaces[0], ifaces[1] = ifaces[1], ifaces[0]
+				}
+			} else { // two aliases: the companion takes the second one only
+				ifaces = append(ifaces, reg.outs[2].typ)
+			}
+			for _, it := range ifaces {
+				comp.outs = append(comp.outs, vpOut{typ: it, slot: first.slot, group: first.group, alias: true})
+			}
+			for _, out := range comp.outs {
+				if !out.hidden {
+					idents = append(idents, vpIdentity{typ: out.typ, name: out.name, group: out.group, reg: len(w.regs)})
+				}
+			}
+			w.regs = append(w.regs, comp)
 		}
 		if (reg.form == "multi" || reg.form == "ro") && allGrouped && rng.Intn(2) == 0 {
 			twin := &vpReg{idx: len(w.regs), life: reg.life, form: reg.form, useIn: reg.useIn, withErr: reg.withErr,
@@ -2388,18 +2432,30 @@ func (r *vpRun) regroup(rng *rand.Rand) {
 		{life: life, form: "plain", outs: []vpOut{out(c, "")}},
 		{life: life, form: "plain", outs: []vpOut{out(d, "")}, deps: []vpDep{{typ: slotType(c)}}},
 	}
+	lateLife := life
+	if rng.Intn(3) == 0 {
+		// the late member is scoped: if the consumer is long-lived the second Build must report the lifetime conflict,
+		// whatever the first Build did (it may have failed in a constructor)
+		lateLife = Scoped
+	}
 	switch rng.Intn(3) {
 	case 0:
-		late = append(late, &vpReg{life: life, form: "ro", outs: []vpOut{out(x, ""), out(m, g)}, deps: []vpDep{{typ: slotType(d)}}})
+		late = append(late, &vpReg{life: lateLife, form: "ro", outs: []vpOut{out(x, ""), out(m, g)}, deps: []vpDep{{typ: slotType(d)}}})
 	case 1:
-		late = append(late, &vpReg{life: life, form: "multi", outs: []vpOut{out(x, g), out(m, g)}, deps: []vpDep{{typ: slotType(d)}}})
+		late = append(late, &vpReg{life: lateLife, form: "multi", outs: []vpOut{out(x, g), out(m, g)}, deps: []vpDep{{typ: slotType(d)}}})
 	default:
-		late = append(late, &vpReg{life: life, form: "plain", outs: []vpOut{out(m, g)}, deps: []vpDep{{typ: slotType(d)}}})
+		late = append(late, &vpReg{life: lateLife, form: "plain", outs: []vpOut{out(m, g)}, deps: []vpDep{{typ: slotType(d)}}})
 	}
 	rng.Shuffle(len(late), func(i, j int) { late[i], late[j] = late[j], late[i] })
 	w.regs = append(early, late...)
 	for _, reg := range w.regs {
 		reg.withErr = rng.Intn(3) == 0
+	}
+	if lateLife != life {
+		for _, reg := range early {
+			reg.withErr = true // so that the preliminary Build can be made to fail in a constructor
+		}
+		w.preFailWanted = true
 	}
 	w.materialize()
 	r.stats["regroup"]++
@@ -2801,6 +2857,20 @@ type vmD struct {
 
 func (d *vmD) Close() error { d.closes.Add(1); return nil }
 
+type vmG struct {
+	entered chan struct{}
+	release chan struct{}
+	armed   *atomic.Bool
+}
+
+func (g *vmG) Close() error {
+	if g.armed.Load() {
+		g.entered <- struct{}{}
+		<-g.release
+	}
+	return nil
+}
+
 func (r *vpRun) midCreation(rng *rand.Rand) {
 	w := r.newWorld(rng)
 	viaProvider := rng.Intn(2) == 0
@@ -2810,6 +2880,16 @@ func (r *vpRun) midCreation(rng *rand.Rand) {
 	release := make(chan struct{})
 	armed := atomic.Bool{}
 	c := w.coll
+	// a singleton whose Close can be held: Provider.Close is then parked in its last phase (the singletons), after
+	// it has dealt with the scopes, while the scope creation it overlaps goes on
+	gArmed := atomic.Bool{}
+	singleton := &vmG{entered: make(chan struct{}, 1), release: make(chan struct{}), armed: &gArmed}
+	holdSingleton := viaProvider && rng.Intn(2) == 0
+	if holdSingleton {
+		if err := c.AddSingleton(func() *vmG { return singleton }); err != nil {
+			w.fail("C17", "mid-creation scenario: %v", err)
+		}
+	}
 	if err := c.AddScoped(func(sc Scope) *vmD {
 		d := &vmD{scope: sc.ID()}
 		mu.Lock()
@@ -2872,11 +2952,15 @@ func (r *vpRun) midCreation(rng *rand.Rand) {
 		return
 	}
 	closed := make(chan error, 1)
+	gArmed.Store(holdSingleton)
 	go func() { closed <- owner.Close() }()
 	ownerClosed := false
+	heldInSingleton := false
 	select {
 	case <-closed:
 		ownerClosed = true
+	case <-singleton.entered:
+		heldInSingleton = true // Provider.Close has finished with the scopes and is closing the singletons
 	case <-time.After(500 * time.Millisecond):
 		// the owner's Close may legitimately wait for the creation: let the initializer go on
 	}
@@ -2887,8 +2971,21 @@ func (r *vpRun) midCreation(rng *rand.Rand) {
 	case got = <-done:
 	case <-time.After(10 * time.Second):
 		w.fail("C09,C13", "CreateScope overlapping the owner's Close never returned")
+		gArmed.Store(false)
+		close(singleton.release)
 		r.emit("p verdict", "ok")
 		return
+	}
+	gArmed.Store(false)
+	if heldInSingleton {
+		close(singleton.release)
+	} else {
+		select { // (Close may reach the singleton only now)
+		case <-singleton.entered:
+			close(singleton.release)
+		default:
+			close(singleton.release)
+		}
 	}
 	if !ownerClosed {
 		select {
@@ -2896,6 +2993,17 @@ func (r *vpRun) midCreation(rng *rand.Rand) {
 		case <-time.After(10 * time.Second):
 			w.fail("C09,C12,C13", "the owner's Close overlapping a scope creation never returned")
 		}
+	}
+	if viaProvider {
+		// Provider.Close has returned: every scope - the one whose creation it overlapped included - is closed, so
+		// every instance made for a scope has been closed already, before (not after) the provider finished
+		mu.Lock()
+		for _, d := range made {
+			if n := d.closes.Load(); n != 1 {
+				w.fail("C10,C11,C13", "Provider.Close returned while the disposable created for scope %s (its creation overlapped the Close, CreateScope returned err=%v) has been closed %d times", d.scope, got.err, n)
+			}
+		}
+		mu.Unlock()
 	}
 	if got.err == nil && got.sc != nil {
 		// accepted: then it is a live scope of a closed owner only if the owner's Close closed it
@@ -3239,6 +3347,139 @@ func (r *vpRun) cancelledBuild(rng *rand.Rand) {
 	}
 	prov.Close()
 	closedOnce("after Provider.Close")
+	r.emit("p verdict", "ok")
+}
+
+// typedNilOutputs (C01, C02): a multi-return constructor returns a nil *pointer* for one return value. A typed nil is a
+// value like any other: the constructor has run once, the identity resolves (to that nil pointer) and resolving it
+// never runs the constructor again - for singletons (Build's creation loop) and for scoped registrations alike.
+type vnA struct{ call int }
+type vnB struct{ call int }
+
+func (r *vpRun) typedNilOutputs(rng *rand.Rand) {
+	w := r.newWorld(rng)
+	c := w.coll
+	calls := 0
+	life := []Lifetime{Singleton, Scoped}[rng.Intn(2)]
+	var err error
+	if rng.Intn(2) == 0 {
+		err = c.addService(func() (*vnA, *vnB) { calls++; return &vnA{call: calls}, nil }, life)
+	} else {
+		err = c.addService(func() (*vnB, *vnA) { calls++; return nil, &vnA{call: calls} }, life)
+	}
+	if err != nil {
+		w.fail("C17", "typed-nil scenario: a valid registration was rejected: %v", err)
+		r.emit("p verdict", "ok")
+		return
+	}
+	var prov Provider
+	if guard(w, "Build", func() { prov, err = c.Build() }) {
+		r.emit("p verdict", "ok")
+		return
+	}
+	r.stats["typed_nil"]++
+	if err != nil {
+		// refusing the registration at Build is a legitimate reading; running the constructor twice is not
+		if calls > 1 {
+			w.fail("C01", "typed-nil scenario: Build failed after running the %v constructor %d times", life, calls)
+		}
+		r.emit("p verdict", "ok")
+		return
+	}
+	defer prov.Close()
+	if life == Singleton && calls != 1 {
+		w.fail("C01", "typed-nil scenario: after Build the singleton constructor (one nil pointer among its return values) has run %d times", calls)
+	}
+	sc, e := prov.CreateScope(nil)
+	if e != nil {
+		w.fail("C08", "typed-nil scenario: CreateScope failed: %v", e)
+		r.emit("p verdict", "ok")
+		return
+	}
+	var first *vnA
+	for k := 0; k < 3; k++ {
+		a, ea := Resolve[*vnA](sc)
+		_, eb := Resolve[*vnB](sc)
+		if ea != nil || a == nil {
+			w.fail("C04,C08", "typed-nil scenario: the non-nil return value does not resolve: %v", ea)
+			break
+		}
+		if errors.Is(eb, ErrServiceNotFound) {
+			w.fail("C08,C01", "typed-nil scenario: the identity of the nil pointer return value is 'not found' on a provider Build accepted: %v", eb)
+		}
+		if first == nil {
+			first = a
+		} else if a != first {
+			w.fail("C01,C02", "typed-nil scenario: the %v service was replaced by a second instance (constructor ran %d times)", life, calls)
+		}
+	}
+	if calls != 1 {
+		w.fail("C01,C02", "typed-nil scenario: the %v constructor has run %d times for one provider / one scope", life, calls)
+	}
+	r.emit("p verdict", "ok")
+}
+
+// varyingConcrete (C10, C12): a transient registered under an interface type whose constructor returns values of
+// different concrete types - some with a Close method, some without. Whether an instance is disposable is a property
+// of the instance: every instance that has a Close method is closed exactly once when the scope is closed, whatever
+// the instances produced before it looked like.
+type vcPlain struct{}
+type vcCloser struct{ closes atomic.Int32 }
+
+func (*vcPlain) ia()            {}
+func (*vcCloser) ia()           {}
+func (x *vcCloser) Close() error { x.closes.Add(1); return nil }
+
+func (r *vpRun) varyingConcrete(rng *rand.Rand) {
+	w := r.newWorld(rng)
+	c := w.coll
+	n := 0
+	pattern := rng.Intn(4) // which invocations return a closer
+	var closers []*vcCloser
+	life := []Lifetime{Transient, Scoped}[rng.Intn(2)]
+	err := c.addService(func() vsIA {
+		n++
+		if (n+pattern)%2 == 0 {
+			return &vcPlain{}
+		}
+		x := &vcCloser{}
+		closers = append(closers, x)
+		return x
+	}, life)
+	if err != nil {
+		w.fail("C17", "varying-concrete scenario: a valid registration was rejected: %v", err)
+		r.emit("p verdict", "ok")
+		return
+	}
+	var prov Provider
+	if guard(w, "Build", func() { prov, err = c.Build() }) || err != nil {
+		w.fail("C08", "varying-concrete scenario: Build failed: %v", err)
+		r.emit("p verdict", "ok")
+		return
+	}
+	r.stats["varying_concrete"]++
+	for round := 0; round < 2; round++ {
+		sc, e := prov.CreateScope(nil)
+		if e != nil {
+			w.fail("C08", "varying-concrete scenario: CreateScope failed: %v", e)
+			break
+		}
+		before := len(closers)
+		for k := 0; k < 2+rng.Intn(3); k++ {
+			if _, e := Resolve[vsIA](sc); e != nil {
+				w.fail("C08", "varying-concrete scenario: Resolve failed: %v", e)
+			}
+		}
+		if e := sc.Close(); e != nil {
+			w.fail("C12", "varying-concrete scenario: Close returned %v", e)
+		}
+		for _, x := range closers[before:] {
+			if k := x.closes.Load(); k != 1 {
+				w.fail("C10,C12", "varying-concrete scenario (%v): an instance with a Close method, produced by a constructor that also returns instances without one, has been closed %d times when its scope was closed", life, k)
+			}
+		}
+	}
+	prov.Close()
 	r.emit("p verdict", "ok")
 }
 
@@ -3646,6 +3887,14 @@ func TestVerifCore(t *testing.T) {
 		}
 		if it%50 == 17 {
 			r.cancelledBuild(rng)
+			continue
+		}
+		if it%50 == 19 {
+			r.typedNilOutputs(rng)
+			continue
+		}
+		if it%50 == 27 {
+			r.varyingConcrete(rng)
 			continue
 		}
 		r.scenario(rng, o)
